@@ -75,7 +75,7 @@ type framesRule struct {
 func (r *framesRule) Inline(fn *ssa.Function) bool {
 	// everything of package ebu that is statically called is followed, except the
 	// persist and shard functions, which are atomic events here
-	return PkgOf(fn) == PkgBus && fn != r.R.PersistFn && fn != r.R.ShardFn
+	return PkgOf(fn) == PkgBus && fn != r.R.PersistFn && fn != r.R.ShardFn && !r.R.FilterHelpers[fn]
 }
 
 func (r *framesRule) PredOK(key string) bool {
